@@ -18,20 +18,29 @@ structure World where
   rq : List Nat := []
   hung : Bool := false
   copies : Nat := 1
+  ahq : List Nat := []        -- queued connection set-up times, account-balance peer (HA)
+  rhq : List Nat := []        -- … rating peer (HR)
+  abmfDead : Bool := false    -- the stored document is one the account-balance server cannot digest: no answer
+  rfDead : Bool := false      -- … the rating server
 
 def popQ : List Nat → Nat × List Nat
   | [] => (0, [])
   | d :: r => (d, r)
 
+/-- an answer that never comes -/
+def never : Nat := 100000000
+
 def wCallRf (w : World) : World × CallResult :=
   let (d, rq) := popQ w.rq
-  let (sim, r) := call Chf.Gen.ratingClient w.rf (w.now - w.rf.now) d w.copies
-  ({ w with rf := sim, rq := rq, now := max w.now sim.now }, r)
+  let (h, rhq) := popQ w.rhq
+  let (sim, r) := call Chf.Gen.ratingClient w.rf (w.now - w.rf.now) (if w.rfDead then never else d) w.copies h
+  ({ w with rf := sim, rq := rq, rhq := rhq, now := max w.now sim.now }, r)
 
 def wCallAbmf (w : World) : World × CallResult :=
   let (d, aq) := popQ w.aq
-  let (sim, r) := call Chf.Gen.abmfClient w.abmf (w.now - w.abmf.now) d w.copies
-  ({ w with abmf := sim, aq := aq, now := max w.now sim.now }, r)
+  let (h, ahq) := popQ w.ahq
+  let (sim, r) := call Chf.Gen.abmfClient w.abmf (w.now - w.abmf.now) (if w.abmfDead then never else d) w.copies h
+  ({ w with abmf := sim, aq := aq, ahq := ahq, now := max w.now sim.now }, r)
 
 def isTimeout : CallResult → Bool
   | .done (.timeout _) _ => true
@@ -82,8 +91,16 @@ def wManyUpdates : Nat → World → World
 def peerSteps : List String → World → List String → Option (List String)
   | [], _, acc => some acc.reverse
   | s :: rest, w, acc =>
-    let arg := (String.ofList (s.toList.drop 1)).toNat?
-    match String.ofList (s.toList.take 1), arg with
+    let isH := s.toList.take 1 == ['H']
+    let arg := (String.ofList (s.toList.drop (if isH then 2 else 1))).toNat?
+    match String.ofList (s.toList.take (if isH then 2 else 1)), arg with
+    | "HA", some d => if d ≤ 20000 then peerSteps rest { w with ahq := w.ahq ++ [d] } acc else none
+    | "HR", some d => if d ≤ 20000 then peerSteps rest { w with rhq := w.rhq ++ [d] } acc else none
+    | "Q", some k =>
+      if k ≤ 2 then peerSteps rest { w with abmfDead := true, rfDead := false } acc
+      else if k ≤ 4 then peerSteps rest { w with rfDead := true, abmfDead := false } acc
+      else if k = 9 then peerSteps rest { w with abmfDead := false, rfDead := false } acc
+      else none
     | "A", some d => peerSteps rest { w with aq := w.aq ++ [d] } acc
     | "R", some d => peerSteps rest { w with rq := w.rq ++ [d] } acc
     | "W", some d => peerSteps rest { w with now := w.now + d } acc
